@@ -146,4 +146,15 @@ def textOf : List Node → List Char
   | .text t :: r => t ++ textOf r
   | .elem _ _ _ :: r => textOf r
 
+mutual
+/-- the content trees the decoder builds from `lexedOf d t` (element itself) -/
+def nodeOf (d : Nat) : Tree → Node
+  | .leaf n as t => .elem n as (if t = [] then [] else [.text (substitute t)])
+  | .node n as [] => .elem n as []
+  | .node n as (k :: ks) => .elem n as (nodesOfKids (d + 1) (k :: ks) ++ [.text (nlTabs d)])
+def nodesOfKids (d : Nat) : List Tree → List Node
+  | [] => []
+  | k :: ks => .text (nlTabs d) :: nodeOf d k :: nodesOfKids d ks
+end
+
 end TrackVerif.LT.Xml
